@@ -6,7 +6,7 @@ S = set
 BASE = dict(
     Accts=S(['a1', 'a2', 'a3']), FeeUnit=1000, MaxHeight=3, Deviations=S(),
     Topics=S(), Descs=S(['x']), Mons=S(['m']), RecKeys=S(['k1']), RecVals=S(['v1', 'v2']), FeePayers=S(['none']),
-    Dids=S(), DocNames=S(), Keys=S(), VmNames=S(), Seqs=S([0, 1, 2]), ForeignVm=False,
+    Dids=S(), DocNames=S(), Keys=S(), VmNames=S(), Seqs=S([0, 1, 2]), ForeignVm=False, LegacyGenesis=False,
     DenomIds=S(), TokenIds=S(), DNames=S(), TDescs=S(['']),
     Amts=S(), SendDenoms=S(), VestEnds=S(),
     Fees=S([0]), Kinds=S(), SignerSets='exact', ExecOn=False,
@@ -122,7 +122,13 @@ def preset(pid, tier):
         simc = did(Accts=S(['a1', 'a2', 'a3']), Dids=S(['d1', 'd2', 'dc']), ViewDids=S(['d1', 'd2', 'dc']),
                    DocNames=S(['A1', 'A2', 'B12', 'C1', 'D2', 'E1', 'F12', 'R1', 'N0', 'EMP']), ForeignVm=True, MaxDeliver=30, MaxHeight=6, NextKinds=ALL_NEXT_R, FailKeep=25)
         tourc = did(DocNames=S(['A1', 'A2', 'F12']) if q else S(['A1', 'A2', 'C1', 'D2', 'F12']), Keys=S(['k1', 'k2']) if q else S(['k1', 'k2', 'k3']), MaxDeliver=2 if q else 3, MaxHeight=2)
-        return dict(mc=mcc, props=props, invs=invs, tour=tourc, sims=[sim(simc, 150 if q else 3000, 50)], mc_timeout=2400)
+        sims = [sim(simc, 150 if q else 3000, 50)]
+        if pid == 'C05':
+            # histories that start from a legacy registry entry (key dc holding a document about d1): deactivation must tombstone the KEY that was addressed
+            legacy = did(Accts=S(['a1', 'a2']), Dids=S(['d1', 'dc']), ViewDids=S(['d1', 'dc']), DocNames=S(['A1', 'A2']), Keys=S(['k1', 'k2']), VmNames=S(['v1']),
+                         ForeignVm=True, LegacyGenesis=True, MaxDeliver=12, MaxHeight=5, NextKinds=ALL_NEXT, FailKeep=25)
+            sims.append(sim(legacy, 40 if q else 600, 30, genesis=dict(legacydid=True)))
+        return dict(mc=mcc, props=props, invs=invs, tour=tourc, sims=sims, mc_timeout=2400)
     if pid in ('C06', 'C12'):
         props = {'C06': ['P_C06'], 'C12': ['P_C12']}[pid]
         invs = {'C06': [], 'C12': ['I_C12']}[pid]
